@@ -6,7 +6,7 @@ PROP = 'C03'
 PROPCHK = 'C03_prop'
 THEOREMS = ['C03_write_preserves_chain', 'C03_write_frames_others', 'C03_reachable_chain', 'C03_example']
 RULE = ('seeded user programs under strategy=validity (blog shape with relationships, composite/string-key shape with an '
-        'aliased column; all plugin subsets; autoflush on/off; key pools of 2-3 keys per class so that delete + re-insert in '
+        'aliased column; class-level overrides of the transaction / end-transaction column names; all plugin subsets; autoflush on/off; key pools of 2-3 keys per class so that delete + re-insert in '
         'one and in several transactions, repeated flushes and interleaved entities are frequent) are run on the real code; '
         'after EVERY flush, commit and rollback all version tables are read and the chain predicate (end = least larger '
         'transaction id of the same key, NULL for the newest) is evaluated on them; the model is replayed on the recorded '
@@ -21,7 +21,8 @@ def budget(tier):
 
 
 def gen_cases(rng, n, tier):
-    cfgs = [c for c in B.all_cfgs('blog') + B.all_cfgs('comp')[::2] if c['strategy'] == 'validity']
+    cfgs = [c for c in B.all_cfgs('blog') + B.all_cfgs('comp')[::2] + B.all_cfgs('blog', dict(class_names=True))[::2]
+            + B.all_cfgs('comp', dict(class_names=True))[::4] if c['strategy'] == 'validity']
     return B.gen_cases_default(rng, n, tier, cfgs=cfgs)
 
 
